@@ -3,6 +3,7 @@
 (loader overlay, like the self-test) and on 16 processes.  Any finding that the unmodified tree does not have is a
 false alarm.  usage: twins_all.py [--seeds]   (--seeds: also list, per seeded change, every property that reports it)"""
 import glob, json, multiprocessing, os, sys
+from concurrent.futures import ProcessPoolExecutor, as_completed
 root = os.path.dirname(os.path.dirname(os.path.abspath(__file__)))
 sys.path.insert(0, root)
 from clikit_sa import selftest
@@ -25,21 +26,28 @@ def one(args):
 
 
 if __name__ == "__main__":
-    with multiprocessing.Pool(16) as pool:
-        bases = dict(pool.map(base, PROPS))
-        jobs = []
-        only = [a for a in sys.argv[1:] if not a.startswith("--")]
-        props = PROPS
-        for a in sys.argv[1:]:
-            if a.startswith("--props="):
-                props = a[8:].split(",")
-        for f in sorted(glob.glob(os.path.join(root, "twins", "*.diff"))):
-            if only and os.path.basename(f)[:-5] not in only:
-                continue
-            d = open(f).read()
-            for p in props:
-                jobs.append((p, os.path.basename(f)[:-5], d, bases[p]))
-        out = pool.map(one, jobs, chunksize=4)
+    from clikit_sa.parallel import pmap
+
+    bases = dict(pmap(base, PROPS))
+    jobs = []
+    only = [a for a in sys.argv[1:] if not a.startswith("--")]
+    props = PROPS
+    for a in sys.argv[1:]:
+        if a.startswith("--props="):
+            props = a[8:].split(",")
+    for f in sorted(glob.glob(os.path.join(root, "twins", "*.diff"))):
+        if only and os.path.basename(f)[:-5] not in only:
+            continue
+        d = open(f).read()
+        for p in props:
+            jobs.append((p, os.path.basename(f)[:-5], d, bases[p]))
+    res = pmap(one, jobs, label=lambda j: "%s under %s" % (j[1], j[0]))
+    out = []
+    for j, o in zip(jobs, res):
+        if o and o[0] == "__error__":
+            out.append((j[0], j[1], "FAILED", o[1], []))
+        else:
+            out.append(o)
     bad = [o for o in out if o[2] not in ("silent",)]
     for o in bad:
         print("FALSE-ALARM" if o[2] == "FAILED" else o[2].upper(), "twin", o[1], "under", o[0], o[3])
